@@ -9,6 +9,7 @@ import (
 	"fmt"
 	"math/big"
 	"os"
+	"runtime"
 	"strconv"
 )
 
@@ -86,6 +87,9 @@ func Bound(name string, def int) int {
 
 // SetVector installs a vector and resets the run state.
 func SetVector(v []Entry) {
+	var ms runtime.MemStats
+	runtime.ReadMemStats(&ms)
+	allocBase = ms.TotalAlloc
 	vector, pos = v, 0
 	Failures, Reached, Observed = nil, nil, nil
 }
@@ -219,6 +223,31 @@ func Known(id string, c bool) {}
 func Observe(label string, vals ...interface{}) {
 	Observed = append(Observed, label+"="+fmt.Sprint(vals...))
 }
+
+// MaxMake returns the largest length that was passed to make([]T, n) so far
+// on this path (engine only; a native run cannot observe it and returns 0).
+// (intrinsic)
+func MaxMake() int { return 0 }
+
+// MaxMakeAt is MaxMake restricted to the call sites whose function name
+// contains one of the '|'-separated substrings (in = true) or none (in = false).
+// (intrinsic; 0 natively)
+func MaxMakeAt(sites string, in bool) int {
+	if !in || !AllocProxy {
+		return 0
+	}
+	// native proxy: bytes allocated since the vector was installed (a make of
+	// n elements allocates at least n bytes); only used to confirm a finding
+	// of the engine on the real build
+	var ms runtime.MemStats
+	runtime.ReadMemStats(&ms)
+	return int(ms.TotalAlloc - allocBase)
+}
+
+var allocBase uint64
+
+// AllocProxy enables the native allocation proxy of MaxMakeAt (replay only).
+var AllocProxy = false
 
 // Note attaches a free-text remark to the current path (diagnostics only). (intrinsic)
 func Note(s string) {}
